@@ -53,28 +53,52 @@ def _one(paths, what):
 
 
 def kernels(ctx):
+    """the derived per-atom quantities, read through the Strain properties (kernels inlined wherever the class routes them)"""
+    cls = ctx.fn(ST, 'Strain')
     G = symarray('g', (2, 3, 3), real=True)
-    I = np.array(sp.eye(3).tolist(), dtype=object)
-    run = lambda name, *a: _one(_ev(ctx, ST).run_fn(ctx.fn(ST, name), list(a), {}), name).ret
-    loc = ST + '::'
-    eps = np.asarray(run('strain_c', G), dtype=object)
-    want = np.array([((I - G[i]) + (I - G[i]).T) / 2 for i in range(2)], dtype=object)
-    ctx.ob('KERNELS', loc + 'strain_c', 'strain = symmetric part of (I - G), per atom', eps.shape == (2, 3, 3) and equal(eps, want, deep=False), node=ctx.fn(ST, 'strain_c'))
-    rot = np.asarray(run('rotation_c', G), dtype=object)
-    want = np.array([((I - G[i]) - (I - G[i]).T) / 2 for i in range(2)], dtype=object)
-    ctx.ob('KERNELS', loc + 'rotation_c', 'rotation = antisymmetric part of (I - G), per atom', rot.shape == (2, 3, 3) and equal(rot, want, deep=False), node=ctx.fn(ST, 'rotation_c'))
     E = symarray('e', (2, 3, 3), real=True)
-    i1 = run('invariant1_c', E)
-    i2 = run('invariant2_c', E)
-    i3 = run('invariant3_c', E)
+    Rr = symarray('r', (2, 3, 3), real=True)
+    I = np.array(sp.eye(3).tolist(), dtype=object)
+    names = ('G', 'strain', 'invariant1', 'invariant2', 'invariant3', 'angularvelocity', 'rotation', 'nye')
+
+    def read(prop, given):
+        attrs = {'_Strain__' + k: None for k in names}
+        attrs.update({'_Strain__' + k: v for k, v in given.items()})
+        obj = SymObj(cls, attrs, 'self')
+        try:
+            val = _ev(ctx, ST).getattr(obj, prop, None, Path({}))
+        except (Opaque, WouldRaise) as e:
+            raise AnalysisError('Strain.%s: %s' % (prop, e))
+        return val, obj
+    loc = ST + '::Strain.'
+    eps, o = read('strain', {'G': G})
+    want = np.array([((I - G[i]) + (I - G[i]).T) / 2 for i in range(2)], dtype=object)
+    ctx.ob('KERNELS', loc + 'strain', 'strain = symmetric part of (I - G), per atom', np.shape(eps) == (2, 3, 3) and equal(np.asarray(eps, dtype=object), want, deep=False), node=ctx.fn(ST, 'Strain.strain'))
+    rot, o = read('rotation', {'G': G})
+    want = np.array([((I - G[i]) - (I - G[i]).T) / 2 for i in range(2)], dtype=object)
+    ctx.ob('KERNELS', loc + 'rotation', 'rotation = antisymmetric part of (I - G), per atom', np.shape(rot) == (2, 3, 3) and equal(np.asarray(rot, dtype=object), want, deep=False), node=ctx.fn(ST, 'Strain.rotation'))
     M = [sp.Matrix(E[i].tolist()) for i in range(2)]
-    ctx.ob('KERNELS', loc + 'invariant1_c', 'first invariant = trace', all(is_zero(i1[i] - M[i].trace()) for i in range(2)), node=ctx.fn(ST, 'invariant1_c'))
-    ctx.ob('KERNELS', loc + 'invariant2_c', 'second invariant = ((tr e)^2 - tr(e^2))/2', all(is_zero(i2[i] - (M[i].trace() ** 2 - (M[i] * M[i]).trace()) / 2) for i in range(2)), node=ctx.fn(ST, 'invariant2_c'))
-    ctx.ob('KERNELS', loc + 'invariant3_c', 'third invariant = determinant', all(is_zero(i3[i] - M[i].det()) for i in range(2)), node=ctx.fn(ST, 'invariant3_c'))
-    R = symarray('r', (2, 3, 3), real=True)
-    av = run('angularvelocity_c', R)
-    ctx.ob('KERNELS', loc + 'angularvelocity_c', 'angular velocity = sqrt(r01^2 + r02^2 + r12^2)', all(is_zero(av[i] ** 2 - (R[i, 0, 1] ** 2 + R[i, 0, 2] ** 2 + R[i, 1, 2] ** 2)) for i in range(2)),
-           node=ctx.fn(ST, 'angularvelocity_c'))
+    i1, _o = read('invariant1', {'G': G, 'strain': E})
+    i2, _o = read('invariant2', {'G': G, 'strain': E})
+    i3, _o = read('invariant3', {'G': G, 'strain': E})
+    ctx.ob('KERNELS', loc + 'invariant1', 'first invariant = trace of the strain', np.shape(i1) == (2,) and all(is_zero(i1[i] - M[i].trace()) for i in range(2)), node=ctx.fn(ST, 'Strain.invariant1'))
+    ctx.ob('KERNELS', loc + 'invariant2', 'second invariant = ((tr e)^2 - tr(e^2))/2', np.shape(i2) == (2,) and all(is_zero(i2[i] - (M[i].trace() ** 2 - (M[i] * M[i]).trace()) / 2) for i in range(2)), node=ctx.fn(ST, 'Strain.invariant2'))
+    ctx.ob('KERNELS', loc + 'invariant3', 'third invariant = determinant of the strain', np.shape(i3) == (2,) and all(is_zero(i3[i] - M[i].det()) for i in range(2)), node=ctx.fn(ST, 'Strain.invariant3'))
+    av, _o = read('angularvelocity', {'G': G, 'rotation': Rr})
+    ctx.ob('KERNELS', loc + 'angularvelocity', 'angular velocity = sqrt(r01^2 + r02^2 + r12^2) of the rotation', np.shape(av) == (2,) and all(is_zero(av[i] ** 2 - (Rr[i, 0, 1] ** 2 + Rr[i, 0, 2] ** 2 + Rr[i, 1, 2] ** 2)) for i in range(2)),
+           node=ctx.fn(ST, 'Strain.angularvelocity'))
+    # each quantity is computed from its source when not cached, stored, and served from the cache afterwards
+    for prop, src, given in (('strain', 'G', {'G': G}), ('rotation', 'G', {'G': G}), ('invariant1', 'strain', {'G': G, 'strain': E}), ('invariant2', 'strain', {'G': G, 'strain': E}), ('invariant3', 'strain', {'G': G, 'strain': E}),
+                            ('angularvelocity', 'rotation', {'G': G, 'rotation': Rr})):
+        v1, o = read(prop, given)
+        stored = o.attrs.get('_Strain__' + prop)
+        g2 = dict(given)
+        g2[prop] = 'CACHED'
+        v2, _o = read(prop, g2)
+        srcsyms = set().union(*[sp.sympify(x).free_symbols for x in np.ravel(given[src])])
+        uses_src = all(sp.sympify(x).free_symbols <= srcsyms for x in np.ravel(np.asarray(v1, dtype=object)))
+        ctx.ob('SOLVE-G', loc + prop, '%s is computed from %s when it is not cached, kept, and served from the cache when it is (solve_G clears the cache)' % (prop, src), stored is not None and stored is v1 and v2 == 'CACHED' and uses_src,
+               node=ctx.fn(ST, 'Strain.' + prop), key='lazy ' + prop)
 
 
 def nye(ctx):
@@ -232,12 +256,8 @@ def solve_g(ctx):
     reset = {norm(t) for s in cp.body if isinstance(s, ast.Assign) and isinstance(s.value, ast.Constant) and s.value.value is None for t in s.targets}
     want = {'self.__' + k for k in ('G', 'strain', 'invariant1', 'invariant2', 'invariant3', 'angularvelocity', 'rotation', 'nye')}
     ctx.ob('SOLVE-G', ST + '::Strain.clear_properties', 'clear_properties resets G and all seven derived quantities', reset >= want, 'missing %s' % sorted(want - reset), node=cp)
-    for prop, src, kern in (('strain', 'G', 'strain_c'), ('rotation', 'G', 'rotation_c'), ('invariant1', 'strain', 'invariant1_c'), ('invariant2', 'strain', 'invariant2_c'), ('invariant3', 'strain', 'invariant3_c'),
-                            ('angularvelocity', 'rotation', 'angularvelocity_c')):
-        pf = ctx.fn(ST, 'Strain.' + prop)
-        t = norm(pf).replace(' ', '')
-        ok = ('ifself.__%sisNone:' % prop) in t and ('self.__%s=%s(self.%s)' % (prop, kern, src)) in t and ('returnself.__%s' % prop) in t
-        ctx.ob('SOLVE-G', ST + '::Strain.' + prop, '%s is computed by %s from %s when (and only when) it is not cached' % (prop, kern, src), ok, node=pf, key='lazy ' + prop)
+    pass
+
 
 
 def match(ctx):
@@ -444,7 +464,6 @@ def ddvectors(ctx):
         s0, s1 = Sy('0'), Sy('1')
         obj = SymObj(cls, {'system0': None, 'system1': None, 'reference': None, 'neighbors': None}, 'self')
         ev = _ev(ctx, DD)
-        ev.np_override = {'numpy.arange': lambda n: list(range(int(n))), 'numpy.linalg.norm': lambda v, axis=None: np.array([sp.Function('len')(*row) for row in np.asarray(v, dtype=object)], dtype=object)}
         try:
             ev.run_fn(fn, [obj], dict(system0=s0, system1=s1, cutoff=5, reference=ref))
         except Opaque as e:
